@@ -10,12 +10,14 @@ import (
 	"crypto/tls"
 	"crypto/x509"
 	"fmt"
+	"io"
 	"net"
 	"os"
 	"path/filepath"
 	"testing"
 	"time"
 
+	"github.com/hashicorp/yamux"
 	"go.temporal.io/server/api/adminservice/v1"
 	"google.golang.org/grpc"
 	"google.golang.org/grpc/credentials"
@@ -24,6 +26,7 @@ import (
 	"github.com/temporalio/s2s-proxy/config"
 	"github.com/temporalio/s2s-proxy/encryption"
 	vrt "github.com/temporalio/s2s-proxy/internal/verifrt"
+	"github.com/temporalio/s2s-proxy/transport/mux"
 )
 
 func vfTLSDial(addr string, cfg *tls.Config) error {
@@ -170,10 +173,145 @@ func TestVerifC19Wiring(t *testing.T) {
 		cancel()
 		backend.Stop()
 	}
+	// mux listener (receiver.go): muxAddressInfo.tls with verification on / off x peer credentials; admitted = the
+	// peer's yamux ping over the TLS connection is answered
+	mux.MuxManagerStartDelay = 0
+	plainLocal := config.ClusterDefinition{ConnectionType: config.ConnTypeTCP,
+		TcpClient: config.TCPTLSInfo{ConnectionString: "127.0.0.1:1"}, TcpServer: config.TCPTLSInfo{ConnectionString: "127.0.0.1:0"}}
+	for _, variant := range []struct {
+		name       string
+		server     encryption.TLSConfig
+		mustVerify bool
+	}{{"mux-server tls=verify", strict, true}, {"mux-server tls=skip", encryption.TLSConfig{CertificatePath: own.CertPath, KeyPath: own.KeyPath, SkipCAVerification: true}, false}} {
+		cfg := config.ClusterConnConfig{Name: "c19m", Local: plainLocal}
+		cfg.Remote = config.ClusterDefinition{ConnectionType: config.ConnTypeMuxServer, MuxCount: 1,
+			MuxAddressInfo: config.TCPTLSInfo{ConnectionString: "127.0.0.1:0", TLSConfig: variant.server}}
+		ctx, cancel := context.WithCancel(context.Background())
+		cc, err := NewClusterConnection(ctx, cfg, vfNoopLoggers())
+		if err != nil {
+			cancel()
+			res.Violate("tls-wiring/cluster-connection-fails", fmt.Sprintf("%s: %v", variant.name, err), nil)
+			continue
+		}
+		cc.Start()
+		addr := cc.inboundServer.(mux.MultiMuxManager).Address()
+		for _, peer := range []struct {
+			name    string
+			leaf    *vrt.Leaf
+			chainOK bool
+		}{{"valid-chain", valid, true}, {"self-signed", selfSigned, false}, {"other-ca", otherCA, false}, {"none", nil, false}, {"valid-chain-again", valid, true}} {
+			pool := x509.NewCertPool()
+			pool.AddCert(ca1.Cert)
+			pc := &tls.Config{RootCAs: pool, ServerName: sn}
+			if peer.leaf != nil {
+				leaf := peer.leaf.TLSCert
+				pc.GetClientCertificate = func(*tls.CertificateRequestInfo) (*tls.Certificate, error) { return &leaf, nil }
+			}
+			err := vfMuxPeerPing(addr, pc)
+			evals++
+			want := peer.chainOK || !variant.mustVerify
+			if !want {
+				nontrivial++
+			}
+			replay := map[string]any{"variant": variant.name, "peer": peer.name}
+			if err == nil && !want {
+				res.Violate("tls-wiring/mux-listener-admits-unauthenticated-peer/"+peer.name, fmt.Sprintf("%s (muxAddressInfo.tls has verification on): a peer presenting %s completed TLS and had a yamux ping answered", variant.name, peer.name), replay)
+			}
+			if err != nil && want {
+				res.Violate("tls-wiring/mux-listener-refuses-legitimate-peer/"+peer.name, fmt.Sprintf("%s refused %s: %v", variant.name, peer.name, err), replay)
+			}
+		}
+		cancel()
+		time.Sleep(20 * time.Millisecond)
+	}
+	// mux establisher (establisher.go): muxAddressInfo.tls with CA verification; the remote listener presents a
+	// valid / foreign / self-signed certificate; reached = the TLS handshake completes on the listener side and
+	// the proxy answers a yamux ping
+	for _, listenerCred := range []struct {
+		name string
+		leaf *vrt.Leaf
+		ok   bool
+	}{{"valid-chain", valid, true}, {"other-ca", otherCA, false}, {"self-signed", selfSigned, false}} {
+		lis, err := net.Listen("tcp", "127.0.0.1:0")
+		if err != nil {
+			t.Fatal(err)
+		}
+		cfg := config.ClusterConnConfig{Name: "c19e", Local: plainLocal}
+		cfg.Remote = config.ClusterDefinition{ConnectionType: config.ConnTypeMuxClient, MuxCount: 1,
+			MuxAddressInfo: config.TCPTLSInfo{ConnectionString: lis.Addr().String(), TLSConfig: encryption.TLSConfig{RemoteCAPath: ca1.Path, CAServerName: sn}}}
+		ctx, cancel := context.WithCancel(context.Background())
+		cc, err := NewClusterConnection(ctx, cfg, vfNoopLoggers())
+		if err != nil {
+			cancel()
+			_ = lis.Close()
+			res.Violate("tls-wiring/cluster-connection-fails", err.Error(), nil)
+			continue
+		}
+		cc.Start()
+		reachedErr := func() error {
+			_ = lis.(*net.TCPListener).SetDeadline(time.Now().Add(30 * time.Second))
+			raw, err := lis.Accept()
+			if err != nil {
+				return fmt.Errorf("the proxy never dialled: %w", err)
+			}
+			defer raw.Close()
+			_ = raw.SetDeadline(time.Now().Add(20 * time.Second))
+			tc := tls.Server(raw, &tls.Config{Certificates: []tls.Certificate{listenerCred.leaf.TLSCert}})
+			if err := tc.Handshake(); err != nil {
+				return err
+			}
+			ycfg := yamux.DefaultConfig()
+			ycfg.LogOutput = io.Discard
+			sess, err := yamux.Server(tc, ycfg)
+			if err != nil {
+				return err
+			}
+			defer sess.Close()
+			_, err = sess.Ping()
+			return err
+		}()
+		evals++
+		if !listenerCred.ok {
+			nontrivial++
+		}
+		if reachedErr == nil && !listenerCred.ok {
+			res.Violate("tls-wiring/mux-client-accepts-unauthenticated-server/"+listenerCred.name, fmt.Sprintf("the proxy's mux establisher (muxAddressInfo.tls with CA verification) completed TLS with, and answered a yamux ping from, a listener presenting %s", listenerCred.name), map[string]any{"listener": listenerCred.name})
+		}
+		if reachedErr != nil && listenerCred.ok {
+			res.Violate("tls-wiring/mux-client-refuses-legitimate-server", fmt.Sprintf("the proxy's mux establisher did not connect to a listener with a valid certificate: %v", reachedErr), map[string]any{"listener": listenerCred.name})
+		}
+		cancel()
+		_ = lis.Close()
+		time.Sleep(20 * time.Millisecond)
+	}
 	res.Set("evaluations", evals)
 	res.Set("distinct_nontrivial", nontrivial)
-	res.Set("rule", "real ClusterConnection (TCP): listeners with tcpServer.tls = verification on while tcpClient.tls = skip (and the reverse) x both servers x peer {valid chain, self-signed, other CA, none}: raw TLS + HTTP/2 preface exchange; outgoing client with tcpClient.tls = CA verification against a TLS fake cluster presenting {valid, other CA, self-signed}; non-trivial = must be refused")
+	res.Set("rule", "mux: listener built from muxAddressInfo.tls {verification on, skip} x peer {valid chain, self-signed, other CA, none, valid again} judged by a yamux ping over the TLS connection; establisher with muxAddressInfo.tls = CA verification against a TLS listener presenting {valid, other CA, self-signed}. real ClusterConnection (TCP): listeners with tcpServer.tls = verification on while tcpClient.tls = skip (and the reverse) x both servers x peer {valid chain, self-signed, other CA, none}: raw TLS + HTTP/2 preface exchange; outgoing client with tcpClient.tls = CA verification against a TLS fake cluster presenting {valid, other CA, self-signed}; non-trivial = must be refused")
 	res.Sample(map[string]any{"variant": "server=verify,client=skip", "server": "inbound", "peer": "none"})
+}
+
+// vfMuxPeerPing connects to a mux listener as a remote peer would: TCP, TLS, yamux client, one ping.
+func vfMuxPeerPing(addr string, cfg *tls.Config) error {
+	d := &net.Dialer{Timeout: 10 * time.Second}
+	raw, err := d.Dial("tcp", addr)
+	if err != nil {
+		return err
+	}
+	defer raw.Close()
+	_ = raw.SetDeadline(time.Now().Add(20 * time.Second))
+	c := tls.Client(raw, cfg)
+	if err := c.Handshake(); err != nil {
+		return err
+	}
+	ycfg := yamux.DefaultConfig()
+	ycfg.LogOutput = io.Discard
+	sess, err := yamux.Client(c, ycfg)
+	if err != nil {
+		return err
+	}
+	defer sess.Close()
+	_, err = sess.Ping()
+	return err
 }
 
 func contains(s, sub string) bool {
